@@ -7,6 +7,7 @@
 //! a JSON shard report. The driver (`/verif/check`) builds, fans out shards, merges the reports,
 //! applies known_findings.json and prints the interface lines.
 
+mod alloc;
 mod gen;
 mod gen_cos;
 mod mon;
@@ -15,6 +16,9 @@ mod report;
 mod rng;
 
 use report::{Ctx, Report, Tier};
+
+#[global_allocator]
+static GLOBAL: alloc::Counting = alloc::Counting;
 use std::collections::BTreeMap;
 use std::time::Instant;
 
@@ -111,6 +115,7 @@ fn main() {
     report::install_panic_hook();
     match property.as_str() {
         "C01" => mon::c01::run(&mut ctx),
+        "C10" => mon::c10::run(&mut ctx),
         "C09" => mon::c09::run(&mut ctx),
         "C09CHILD" => mon::c09::child(&mut ctx),
         "C08" => mon::c08::run(&mut ctx),
